@@ -253,6 +253,11 @@ func vocabMain(x *X) {
 	desc := fmt.Sprintf("%s [%s, %s, %s]", op.Q, name, pos, map[bool]string{true: "fallback disabled", false: "fallback enabled"}[op.Eng.NoFallback])
 	x.R.Nontrivial = true
 	if o.ClientPanic != "" {
+		// C13 reports the panic; for C08 a query the reference accepts was neither answered nor
+		// rejected as unsupported
+		if ref.Created {
+			x.Viol("C08", "vocab", key("panic-instead-of-answer"), fmt.Sprintf("%s: creation/Exec panicked (%s) although the reference engine accepts the query", desc, firstFrame(o.ClientPanic)))
+		}
 		return
 	}
 	if o.Fallback {
